@@ -7,7 +7,7 @@ from impl import quiet, Panoptica_Aggregator
 from common import VERIF, same_value
 from props.c10 import summ_equal
 
-RULE = ("construction-only cases (decision metric outside the instance metrics, shared user lists, default lists: nothing the caller or another evaluator holds may change); sequences of 3-12 operations over 1-3 real evaluators (default and explicit argument lists, class groups incl. "
+RULE = ("calls the library refuses, made with per-call options, inside the histories; the real worker pool under the forkserver start method with non-default metric selections; construction-only cases (decision metric outside the instance metrics, shared user lists, default lists: nothing the caller or another evaluator holds may change); sequences of 3-12 operations over 1-3 real evaluators (default and explicit argument lists, class groups incl. "
         "single-instance groups, decision metrics): evaluate(input, all 16 combinations of result_all/save_group_times/"
         "log_times/verbose), construct aggregator (log_times F/T), read resulting_metric_keys, save_to_config, construct "
         "a further evaluator with default arguments; after every operation: caller arrays byte-identical, result equal to a "
@@ -84,7 +84,7 @@ def one_history(ctx, src):
         for step in range(n_ops):
             e = rng.randrange(len(evs))
             cfg, groups, gm, sgt = specs[e]
-            kind = rng.choice(["evaluate", "evaluate", "evaluate", "aggregator", "keys", "save", "other-evaluator"])
+            kind = rng.choice(["evaluate", "evaluate", "evaluate", "aggregator", "keys", "save", "other-evaluator", "rejected-evaluate"])
             if kind == "evaluate":
                 pred, ref = gen.pair(rng, hi=6, max_obj=3, allow_empty=True)
                 if cfg["input"] == "SEMANTIC" and rng.random() < 0.6:
@@ -116,6 +116,20 @@ def one_history(ctx, src):
                     used_after.add(e)
                 log.append(["evaluate", e, gen.arr_json(pred), gen.arr_json(ref), list(pred.shape), opts])
                 mops.append(["evaluate", e, step, opts["result_all"], opts["save_group_times"], opts["log_times"], opts["verbose"]])
+            elif kind == "rejected-evaluate":
+                # a call the library refuses (shapes differ / a label that no group covers), made with per-call options
+                pr = np.ones((3, 4), np.uint8)
+                rf = np.ones((3, 5), np.uint8) if not groups or rng.random() < 0.5 else np.full((3, 4), 9, np.uint8)
+                opts = {"save_group_times": rng.choice([True, False]), "log_times": rng.choice([None, True]), "verbose": rng.choice([None, False])}
+                try:
+                    with quiet():
+                        evs[e].evaluate(pr, rf, **opts)
+                    ctx.count("rejected_call_was_accepted")
+                except Exception:
+                    ctx.count("rejected_call")
+                used_after.add(e)
+                log.append(["rejected-evaluate", e, list(rf.shape), int(rf.max()), opts])
+                mops.append(["keys", e])
             elif kind == "aggregator":
                 lt = rng.random() < 0.6
                 with quiet():
@@ -191,6 +205,26 @@ def pool_slice(ctx, n):
             ctx.violation(f"result differs between serial evaluation and the multiprocessing pool: {d}", inp, key={"kind": "pool-dependent"})
 
 
+def worker_start_method_cases(ctx, n):
+    """the real worker pool under the forkserver start method (workers import the library afresh instead of inheriting
+    the parent's memory), with metric selections other than the documented default: same results as here"""
+    rng = ctx.rng
+    cases = []
+    for i in range(n):
+        pred, ref = gen.pair(rng, hi=6, max_obj=3, allow_empty=False)
+        metrics = rng.choice([["IOU", "DSC", "ASSD", "RVD"], ["RVD", "IOU"], ["DSC"], ["IOU", "RVD", "DSC"]])
+        it = rng.choice(["MATCHED", "UNMATCHED"])
+        cases.append({"cfg": E.mk_cfg(it, metrics, matcher=E.naive("IOU", (1, 2)) if it == "UNMATCHED" else None), "pred": pred, "ref": ref})
+    diffs = E.optimized_differences(ctx, cases, mode="start method forkserver, real worker pool", optimize=False, start_method="forkserver", serial_pool=False)
+    ctx.count("forkserver_pool_runs", len(cases))
+    for k, d in diffs[:3]:
+        c = cases[k]
+        inp = {"shape": list(c["pred"].shape), "pred": gen.arr_json(c["pred"]), "ref": gen.arr_json(c["ref"]), "cfg": c["cfg"], "kind": "pool",
+               "mode": "forkserver"}
+        ctx.case(inp, True)
+        ctx.violation(f"result depends on how the worker processes are started (forkserver pool vs serial evaluation): {d}", inp, key={"kind": "pool-dependent"})
+
+
 def construction_cases(ctx, n):
     """merely constructing an evaluator (any legal or illegal-to-evaluate combination of metric arguments, incl. a
     decision metric that is not among the instance metrics) must not change the caller's argument lists, the default
@@ -242,6 +276,7 @@ def run(ctx):
     for i in range(ctx.scale(60, 800)):
         one_history(ctx, f"rand{i}")
     pool_slice(ctx, ctx.scale(6, 60))
+    worker_start_method_cases(ctx, ctx.scale(4, 20))
 
 
 def search(ctx):
@@ -261,6 +296,7 @@ def replay(ctx, rec):
     with quiet():
         evs = [impl.mk_evaluator(c, groups=g, global_metrics=m, save_group_times=s) for c, g, m, s in i["specs"]]
         keys0 = [list(ev.resulting_metric_keys) for ev in evs]
+    yaml0 = [None for _ in evs]
     ctx.case(i, True)
     for o in i["ops"]:
         if o[0] == "evaluate":
@@ -275,7 +311,20 @@ def replay(ctx, rec):
         elif o[0] == "aggregator":
             with quiet():
                 Panoptica_Aggregator(evs[o[1]], os.path.join(d, f"r{len(os.listdir(d))}.tsv"), log_times=o[2])
+        elif o[0] == "rejected-evaluate":
+            _, e, shp, val, opts = o
+            try:
+                with quiet():
+                    evs[e].evaluate(np.ones((3, 4), np.uint8), np.full(tuple(shp), val, np.uint8), **opts)
+            except Exception:
+                pass
         for k, ev in enumerate(evs):
+            y = snapshot_config(ev, d, k)
+            if yaml0[k] is None:
+                yaml0[k] = y
+            elif y != yaml0[k]:
+                ctx.violation(f"saved configuration of evaluator {k} changed through use", i, key={"kind": "config-changed"})
+                yaml0[k] = y
             with quiet():
                 ks = list(ev.resulting_metric_keys)
             if ks != keys0[k]:
